@@ -106,7 +106,13 @@ def handle (s : S) (i : Nat) (j : Json) : S × List Json :=
        | some (ord, _, _, market, _, _) => [verdictViol i "C20.trigger" (Json.mkObj [("spot", ord.spot), ("id", ord.id), ("kind", reprStr ord.kind), ("market", mkInt market), ("rate", mkInt ord.rate)])]
        | none => []) ++
       -- cancel returns the full escrow
-      (match perOrder.find? (fun (ord, _, cancelled, _, _, _) => cancelled && escrowNow ord != 0) with
+      -- (what third parties sent straight to the escrow address, before or in this block - possibly after the cancel -, is not
+      -- the order's money: only a remainder that donations cannot explain counts)
+      (match perOrder.find? (fun (ord, _, cancelled, _, _, _) =>
+          let donatedNow := (st.txs.filter (fun t => t.kind == "bank.donate" && t.code == 0)).foldl (fun a t =>
+            a + (t.moves.filter (fun m => m.dst == ord.escrow && m.denom == ord.denom)).foldl (fun b m => b + m.amt) 0) 0
+          let surplusBefore := max 0 (s.prevBank.get (ord.escrow, ord.denom) - ord.amount)
+          cancelled && escrowNow ord > donatedNow + surplusBefore) with
        | some (ord, _, _, _, _, _) => [verdictViol i "C20.cancel_returns_all" (Json.mkObj [("spot", ord.spot), ("id", ord.id), ("leftInEscrow", mkInt (escrowNow ord))])]
        | none => [])
     let vs := diffs ++ viols
